@@ -7,7 +7,8 @@
 // process.  The parent relays the child's lines and adds `crash` when the child died, so that the
 // caller always gets a clean line stream.  Inside the child every operation runs under
 // catch_unwind and a watchdog (`hang`, exit code 3).  After `panic` or `err:*` the child stops:
-// the state of the object after an unwound or failed call is not specified.
+// the state of the object after an unwound or failed call is not specified - except `err:FileTooLarge`
+// (a write or set_len refused by the file-size limit set with `limit <bytes>`), which is modelled.
 use crate::{fnv, show, unhex};
 use rabuf::{BufFile, FileSetLen, FileSync, SmallRead, SmallWrite};
 use std::io::{BufRead, Read, Seek, SeekFrom, Write};
@@ -69,6 +70,18 @@ impl St {
                 }
                 Err(e) => io_err(&e),
             };
+        }
+        if t[0] == "limit" || t[0] == "unlimit" {
+            // limit <bytes> / unlimit : the soft RLIMIT_FSIZE of this process (SIGXFSZ ignored): a write at or beyond the
+            // limit fails with EFBIG after the part below it has been written; a growing set_len beyond it fails
+            unsafe {
+                crate::signal(crate::SIGXFSZ, crate::SIG_IGN);
+                let mut cur = [0u64; 2];
+                crate::getrlimit(crate::RLIMIT_FSIZE, &mut cur);
+                let new = [if t[0] == "limit" { num(1) } else { cur[1] }, cur[1]];
+                crate::setrlimit(crate::RLIMIT_FSIZE, &new);
+            }
+            return "ok".into();
         }
         if t[0] == "disk" {
             return match std::fs::read(&self.path) {
@@ -207,7 +220,8 @@ fn inner(opsfile: &str, workdir: &str, timeout_s: u64) {
             Ok(s) => s,
             Err(_) => "panic".to_string(),
         };
-        let stop = s == "panic" || s.starts_with("err");
+        // an EFBIG error (the file-size limit) leaves a specified state (Cache_fault.v): the run goes on
+        let stop = s == "panic" || (s.starts_with("err") && s != "err:FileTooLarge");
         {
             let mut o = out.lock();
             writeln!(o, "{}", s).unwrap();
